@@ -107,3 +107,19 @@ From Autog Require BK BKTotal BKTotal2.
 Theorem C01_brandes_koepf_total : forall variant p g, BKTotal.bk_wf g -> exists g', BK.phase4_bk variant p g = Ok g'.
 Proof. exact BKTotal2.phase4_bk_total. Qed.
 Print Assumptions C01_brandes_koepf_total.
+
+(* ---------- spline routing with the REAL corridor router ([shortest_geom] is Model/Geom.v's [shortest], the exact model
+   of geom.Shortest): it returns whenever no edge spans more than one band, all widths are positive and the band
+   spacing is positive — the corridor of an edge between two real nodes of adjacent bands is one rectangle, the start
+   and end points are inside the router's class, the router answers the straight segment (C19, one rectangle) and the
+   fitter is not called. This delimits the recorded finding `spline-corridor` from the other side. For every fitter
+   and every choice of inner control points (Proofs/SplineShort*.v). ---------- *)
+From Autog Require SplineStruct Splines PipelineSpl SplineShort SplineShort2 E2EBridge E2EBackbone.
+Theorem C01_spline_routing_returns_without_long_edges :
+  forall (fit : list Base.pt -> list Geom.rect -> Base.res (list (SplineStruct.piece Base.pt))) (mk_inner : Base.pt -> Base.pt -> Base.pt * Base.pt),
+  forall bk o g,
+  E2EBackbone.component_input g -> E2EBridge.modelled_p4 (Layout.o_p4 o) -> Layout.o_p5 o = Phase5.OtherRouting -> TotalPipeline.p2_ready o g ->
+  (0 < Layout.o_layer_spacing o)%Q -> (forall n, In n (g_N g) -> (0 < Phase4.nW g n)%Q) -> SplineShort2.short_premise o g ->
+  exists g' x, PipelineSpl.layout_component_sx SplineShort.shortest_geom fit mk_inner bk o g = Ok (g', x).
+Proof. intros fit mk_inner. exact (SplineShort2.layout_component_sx_short_total fit mk_inner). Qed.
+Print Assumptions C01_spline_routing_returns_without_long_edges.
